@@ -1615,6 +1615,13 @@ class Segment(Element):
             super(Segment, self).__init__(name, parent, reference, version,
                                           validation_level, traversal_parent)
 
+            if not self.ordered_children:
+                # segment without any defined field (e.g. QRD, withdrawn from v2.7)
+                self.allow_infinite_children = False
+                self._last_allowed_child_index = 0
+                self._last_child_index = 0
+                return
+
             last_field = self.ordered_children[-1]
             last_field_structure = self.structure_by_name[last_field]
             self.allow_infinite_children = last_field_structure['ref'][2] == 'varies'
